@@ -3,11 +3,14 @@
    GetAllRoutesFromEntries and the rule files http_rule.go, rpc_rule.go, variable_rule.go, configutility.go),
    property C04 part 2.  Pure reference semantics.
 
-   A rule is [k, pa, re, hs, vs]:
-     k  = "path" | "prefix" | "regex" | "rpc" | "var"
+   A rule is [k, pa, re, hs, vs, qs, ds]:
+     k  = "path" | "prefix" | "regex" | "rpc" | "var" | "dsl"
      pa = characters of the path / prefix (<<>> if unused)       re = regular expression text ("" if unused)
      hs = sequence of header matchers [n |-> name, v |-> value, re |-> BOOLEAN]
      vs = sequence of variable matchers [n |-> variable, v |-> value, re |-> regex text, m |-> "and" | "or"]
+     qs = sequence of query-parameter matchers [n, v, re] of a path/prefix/regex rule (no configuration field sets
+          them in this version; the harness installs them through a verif accessor)
+     ds = sequence of DSL (CEL) expressions of a "dsl" rule, each a prefix-order sequence of tokens [t, n, v, pa]
    A request is [path, method, query, hd] with path a character sequence (<<>> = the protocol sets no path),
    hd = [h1, h2, service] where "-" means the header is absent.
 
@@ -32,7 +35,7 @@ PathRe(re, s) ==
     [] OTHER          -> Assert(FALSE, <<"regex not in the menu", re>>)
 
 (* ---- header / variable value regex menu; the meaning of each is its set of matching values of the universe *)
-AllVals == {"v1", "v2", "xv1", "s1", "s2", "GETs", "GET", "POST", "PUT", "", "q=1", "q=1&r=2"}
+AllVals == {"v1", "v2", "xv1", "s1", "s2", "GETs", "GET", "POST", "PUT", "", "q=1", "q=1&r=2", "r=2", "1", "2"}
 ValReSet(re) ==
   CASE re = "^v"    -> {"v1", "v2"}
     [] re = "v1"    -> {"v1", "xv1"}
@@ -42,8 +45,9 @@ ValReSet(re) ==
     [] re = ".*"    -> AllVals
     [] re = "^(GET|PUT)$" -> {"GET", "PUT"}
     [] re = "q=1"   -> {"q=1", "q=1&r=2"}
+    [] re = "^2$"   -> {"2"}
     [] OTHER        -> Assert(FALSE, <<"value regex not in the menu", re>>)
-ValRes == {"^v", "v1", "^v1$", "s.*", "^s.*", ".*", "^(GET|PUT)$", "q=1"}
+ValRes == {"^v", "v1", "^v1$", "s.*", "^s.*", ".*", "^(GET|PUT)$", "q=1", "^2$"}
 ValRe(re, val) == Assert(val \in AllVals, <<"value not in the universe", val>>) /\ val \in ValReSet(re)
 PathRes == {"^/a", "b$", "^/[ab]$", "/a/.+", ".*"}
 
@@ -79,12 +83,49 @@ GroupOf(vs, i) == LET ends == { j \in i..Len(vs) : j = Len(vs) \/ vs[j].m = "or"
 VarHolds(rule, req) == \E i \in 1..Len(rule.vs) :
                          GroupStart(rule.vs, i) /\ \A j \in GroupOf(rule.vs, i) : VarItem(rule.vs[j], req)
 
+(* ---- query-parameter matchers: every matcher names a parameter that is present and whose value is equal / matches.
+   The query strings of the universe, parsed by hand (cross-checked against net/url by the driver).
+   Not specified for a request without query string (see Specified). *)
+Queries == {"", "q=1", "r=2", "q=1&r=2"}
+QPVal(q, n) == CASE q = "q=1" /\ n = "q" -> "1" [] q = "r=2" /\ n = "r" -> "2"
+                 [] q = "q=1&r=2" /\ n = "q" -> "1" [] q = "q=1&r=2" /\ n = "r" -> "2" [] OTHER -> Absent
+QsHolds(rule, req) == \A i \in 1..Len(rule.qs) :
+                        LET val == QPVal(req.query, rule.qs[i].n) IN
+                          val # Absent /\ (IF rule.qs[i].re THEN ValRe(rule.qs[i].v, val) ELSE val = rule.qs[i].v)
+(* the code skips the query matchers of a rule when the request carries no query parameter at all; with the feature
+   unreachable from configuration nothing documents what is meant, so such pairs are outside the specification *)
+Specified(rules, req) == \A i \in 1..Len(rules) : Len(rules[i].qs) > 0 => req.query # ""
+
+(* ---- DSL rules: every expression of the list evaluates to true.  Expressions are CEL over request attributes;
+   a missing attribute / map key makes the (sub)expression an error, errors propagate CEL-style (true || error = true,
+   false && error = false, !error = error) and an expression that ends in an error does not hold. *)
+And3(a, b) == IF a = "F" \/ b = "F" THEN "F" ELSE IF a = "E" \/ b = "E" THEN "E" ELSE "T"
+Or3(a, b)  == IF a = "T" \/ b = "T" THEN "T" ELSE IF a = "E" \/ b = "E" THEN "E" ELSE "F"
+Not3(a)    == IF a = "E" THEN "E" ELSE IF a = "T" THEN "F" ELSE "T"
+B3(b)      == IF b THEN "T" ELSE "F"
+Leaf(t, req) ==
+  CASE t.t = "meq"  -> B3(req.method = t.v)                                          \* request.method == v
+    [] t.t = "ppre" -> IF req.path = <<>> THEN "E" ELSE B3(IsPrefix(t.pa, req.path))  \* request.path.startsWith(pa)
+    [] t.t = "peq"  -> IF req.path = <<>> THEN "E" ELSE B3(req.path = t.pa)           \* request.path == pa
+    [] t.t = "heq"  -> IF HeaderVal(req, t.n) = Absent THEN "E" ELSE B3(HeaderVal(req, t.n) = t.v)   \* request.headers[n] == v
+    [] t.t = "hdef" -> B3(HeaderVal(req, t.n) = t.v)                                  \* (request.headers[n] | "none") == v
+    [] t.t = "qeq"  -> IF QPVal(req.query, t.n) = Absent THEN "E" ELSE B3(QPVal(req.query, t.n) = t.v)  \* request.query_params[n] == v
+RECURSIVE Ev3(_, _, _)
+Ev3(e, i, req) ==
+  LET t == e[i] IN
+  CASE t.t = "and" -> LET a == Ev3(e, i + 1, req) b == Ev3(e, a.n, req) IN [v |-> And3(a.v, b.v), n |-> b.n]
+    [] t.t = "or"  -> LET a == Ev3(e, i + 1, req) b == Ev3(e, a.n, req) IN [v |-> Or3(a.v, b.v), n |-> b.n]
+    [] t.t = "not" -> LET a == Ev3(e, i + 1, req) IN [v |-> Not3(a.v), n |-> a.n]
+    [] OTHER       -> [v |-> Leaf(t, req), n |-> i + 1]
+DslHolds(rule, req) == \A k \in 1..Len(rule.ds) : Ev3(rule.ds[k], 1, req).v = "T"
+
 RuleHolds(rule, req) ==
-  CASE rule.k = "path"   -> req.path # <<>> /\ LowerP(req.path) = LowerP(rule.pa) /\ HttpHeaders(rule, req)
-    [] rule.k = "prefix" -> req.path # <<>> /\ IsPrefix(rule.pa, req.path) /\ HttpHeaders(rule, req)
-    [] rule.k = "regex"  -> req.path # <<>> /\ PathRe(rule.re, req.path) /\ HttpHeaders(rule, req)
+  CASE rule.k = "path"   -> req.path # <<>> /\ LowerP(req.path) = LowerP(rule.pa) /\ HttpHeaders(rule, req) /\ QsHolds(rule, req)
+    [] rule.k = "prefix" -> req.path # <<>> /\ IsPrefix(rule.pa, req.path) /\ HttpHeaders(rule, req) /\ QsHolds(rule, req)
+    [] rule.k = "regex"  -> req.path # <<>> /\ PathRe(rule.re, req.path) /\ HttpHeaders(rule, req) /\ QsHolds(rule, req)
     [] rule.k = "rpc"    -> RpcHolds(rule, req)
     [] rule.k = "var"    -> VarHolds(rule, req)
+    [] rule.k = "dsl"    -> DslHolds(rule, req)
 
 (* all matching rule indexes in configuration order; the selected route is the first, 0 = no route *)
 AllMatches(rules, req) == { i \in 1..Len(rules) : RuleHolds(rules[i], req) }
@@ -94,9 +135,29 @@ RECURSIVE SetToSortedSeq(_)
 SetToSortedSeq(S) == IF S = {} THEN <<>>
                      ELSE LET m == CHOOSE i \in S : \A j \in S : i <= j IN <<m>> \o SetToSortedSeq(S \ {m})
 
+(* ---- MatchRouteFromHeaderKV(key, value): the fast index is an accelerator of the scan for rules that consist of
+   exactly one exact header matcher (fastindex_test.go: "without fast index, we iterate through the slice and find the
+   first matching route. with the fast index, we get the route directly from the key&value").  A rule is reachable
+   through the index for (key, value) iff its header criteria (for HTTP rules: without the "method" key) are exactly
+   one exact matcher key = value; the answer is the first such rule in configuration order, 0 = none. *)
+Criteria(rule) == IF rule.k \in {"path", "prefix", "regex"} THEN SelectSeq(rule.hs, LAMBDA hm : hm.n # "method")
+                  ELSE IF rule.k = "rpc" THEN rule.hs ELSE <<>>
+Indexed(rule, key, value) == LET c == Criteria(rule) IN Len(c) = 1 /\ ~c[1].re /\ c[1].n = key /\ c[1].v = value
+KvSelect(rules, key, value) == LET S == { i \in 1..Len(rules) : Indexed(rules[i], key, value) } IN
+                                 IF S = {} THEN 0 ELSE CHOOSE i \in S : \A j \in S : i <= j
+KVs == { <<"h1", "v1">>, <<"h1", "v2">>, <<"h2", "v1">>, <<"service", "s1">>, <<"service", ".*">>, <<"service", "s.*">>,
+         <<"method", "GET">> }
+
+(* ---- route handler (handler.go DefaultMakeHandler / DoRouteHandler, what the proxy calls per request): the route is
+   the one MatchRoute selects; the snapshot is that of the route's cluster if the cluster manager holds it, none
+   otherwise; the route is handed over even when its cluster is unknown (no fall-through to a later route).
+   present = indexes of the rules whose cluster exists. *)
+HandlerWant(rules, req, present) == LET f == FirstMatch(rules, req) IN
+                                      [route |-> f, snap |-> IF f \in present THEN f ELSE 0]
+
 (* what kind of rule: used in failure signatures *)
 RuleClass(rule) ==
-  CASE rule.k \in {"path", "prefix", "regex"} -> rule.k \o (IF Len(rule.hs) > 0 THEN "+headers" ELSE "")
+  CASE rule.k \in {"path", "prefix", "regex"} -> rule.k \o (IF Len(rule.hs) > 0 THEN "+headers" ELSE "") \o (IF Len(rule.qs) > 0 THEN "+query" ELSE "")
     [] rule.k = "rpc" -> IF Len(rule.hs) = 0 THEN "rpc-catchall"
                          ELSE IF Len(rule.hs) = 1 /\ rule.hs[1].n = "service"
                               THEN "rpc-service" \o (IF rule.hs[1].re THEN "-regex" ELSE IF rule.hs[1].v = ".*" THEN "-any" ELSE "-exact")
@@ -107,7 +168,11 @@ RuleClass(rule) ==
 (* ---------- universes *)
 H(n, v, re) == [n |-> n, v |-> v, re |-> re]
 V(n, v, re, m) == [n |-> n, v |-> v, re |-> re, m |-> m]
-R(k, pa, re, hs, vs) == [k |-> k, pa |-> pa, re |-> re, hs |-> hs, vs |-> vs]
+R(k, pa, re, hs, vs) == [k |-> k, pa |-> pa, re |-> re, hs |-> hs, vs |-> vs, qs |-> <<>>, ds |-> <<>>]
+RQ(k, pa, re, hs, qs) == [k |-> k, pa |-> pa, re |-> re, hs |-> hs, vs |-> <<>>, qs |-> qs, ds |-> <<>>]
+RD(ds) == [k |-> "dsl", pa |-> <<>>, re |-> "", hs |-> <<>>, vs |-> <<>>, qs |-> <<>>, ds |-> ds]
+Tk(t, n, v, pa) == [t |-> t, n |-> n, v |-> v, pa |-> pa]
+Op(t) == Tk(t, "", "", <<>>)
 PA  == <<"/", "a">>
 PAm == <<"/", "A">>
 PAB == <<"/", "a", "/", "b">>
@@ -131,7 +196,13 @@ RulesQuick ==
     R("rpc", <<>>, "", <<H("h1", "v1", FALSE), H("service", "^s.*", TRUE)>>, <<>>),
     R("rpc", <<>>, "", <<H("service", "s.*", TRUE)>>, <<>>),
     R("var", <<>>, "", <<>>, <<V(M, "GET", "", "and"), V(Q, "q=1", "", "and")>>),
-    R("var", <<>>, "", <<>>, <<V(M, "POST", "", "or"), V(Q, "", "q=1", "and"), V(M, "GET", "", "and")>>) }
+    R("var", <<>>, "", <<>>, <<V(M, "POST", "", "or"), V(Q, "", "q=1", "and"), V(M, "GET", "", "and")>>),
+    R("rpc", <<>>, "", <<H("h1", "v1", FALSE)>>, <<>>),
+    RQ("prefix", PR, "", <<>>, <<H("q", "1", FALSE)>>),
+    RQ("path", PA, "", <<H("h1", "v1", FALSE)>>, <<H("q", ".*", TRUE), H("r", "^2$", TRUE)>>),
+    RD(<< <<Op("and"), Tk("meq", "", "GET", <<>>), Tk("ppre", "", "", PA)>> >>),
+    RD(<< <<Op("or"), Tk("meq", "", "POST", <<>>), Tk("heq", "h1", "v1", <<>>)>> >>),
+    RD(<< <<Op("not"), Tk("heq", "h1", "v1", <<>>)>>, <<Tk("hdef", "h2", "v1", <<>>)>> >>) }
 RulesThorough == RulesQuick \cup
   { R("path", PAB, "", <<H("method", "POST", FALSE)>>, <<>>),
     R("prefix", PAB, "", <<>>, <<>>),
@@ -141,7 +212,10 @@ RulesThorough == RulesQuick \cup
     R("rpc", <<>>, "", <<>>, <<>>),
     R("rpc", <<>>, "", <<H("h2", "v1", TRUE), H("h1", "v2", FALSE)>>, <<>>),
     R("var", <<>>, "", <<>>, <<V(M, "", "^(GET|PUT)$", "and"), V(Q, "q=1", "", "or"), V(Q, "q=1&r=2", "", "and")>>),
-    R("var", <<>>, "", <<>>, <<V(Q, "", "", "or"), V(M, "POST", "", "and")>>) }
+    R("var", <<>>, "", <<>>, <<V(Q, "", "", "or"), V(M, "POST", "", "and")>>),
+    RQ("regex", <<>>, "^/a", <<>>, <<H("r", "2", FALSE)>>),
+    RD(<< <<Op("and"), Op("not"), Tk("meq", "", "GET", <<>>), Op("or"), Tk("peq", "", "", PB), Tk("qeq", "q", "1", <<>>)>> >>),
+    RD(<< <<Tk("qeq", "r", "2", <<>>)>>, <<Op("or"), Tk("heq", "h2", "v1", <<>>), Tk("heq", "h1", "v2", <<>>)>> >>) }
 
 Hd(a, b, c) == [h1 |-> a, h2 |-> b, service |-> c]
 Rq(path, method, query, hd) == [path |-> path, method |-> method, query |-> query, hd |-> hd]
@@ -151,7 +225,8 @@ ReqsRQuick ==
   \cup { Rq(p, "GET", q, Hd(a, b, c)) : p \in {PA, PB}, q \in {"", "q=1"}, a \in {Absent, "v1"}, b \in {Absent, "v1"},
                                           c \in {Absent, "s1", "s2"} }
   \cup { Rq(<<>>, m, q, Hd(a, Absent, c)) : m \in {"GET", "POST"}, q \in {"", "q=1"}, a \in {Absent, "v1"}, c \in {Absent, "s1", "GETs"} }
+  \cup { Rq(p, "GET", q, Hd(a, Absent, Absent)) : p \in {PA, PB}, q \in {"r=2", "q=1&r=2"}, a \in {Absent, "v1"} }
 ReqsRThorough == ReqsRQuick \cup
-  { Rq(p, m, q, Hd(a, b, c)) : p \in {PAB, PAm}, m \in {"GET", "POST", "PUT"}, q \in {"", "q=1", "q=1&r=2"},
+  { Rq(p, m, q, Hd(a, b, c)) : p \in {PAB, PAm}, m \in {"GET", "POST", "PUT"}, q \in {"", "q=1", "q=1&r=2", "r=2"},
                                a \in {Absent, "v2"}, b \in {Absent, "v1", "v2"}, c \in {Absent, "s2"} }
 ====
